@@ -27,6 +27,17 @@ func main() {
 		}
 	case "replay":
 		cmdReplay(os.Args[2:])
+	case "why":
+		e, err := loadEngine("/repo", defaultPkgs)
+		if err != nil {
+			fmt.Fprintln(os.Stderr, err)
+			os.Exit(1)
+		}
+		for fn := range e.allFuncs {
+			if strings.Contains(fn.String(), os.Args[2]) {
+				e.explainTop(fn, 0, map[string]bool{})
+			}
+		}
 	default:
 		fmt.Fprintln(os.Stderr, "unknown command")
 		os.Exit(2)
@@ -40,6 +51,7 @@ func cmdDump(args []string) {
 	timeout := fs.Int("t", 10, "")
 	only := fs.String("solver", "", "")
 	keep := fs.Bool("keep", false, "keep smt files")
+	noSolve := fs.Bool("nosolve", false, "generate only")
 	fullModel := fs.String("fullmodel", "", "write the full model of failing obligations whose name contains this string to /tmp/gvc-model-<n>.txt")
 	fs.Parse(args)
 	pats := defaultPkgs
@@ -79,6 +91,14 @@ func cmdDump(args []string) {
 		t1 := time.Now()
 		rep := e.verifyFunction(fn, ct)
 		gen := time.Since(t1).Seconds()
+		if *noSolve {
+			tot := 0
+			for _, o := range rep.Obls {
+				tot += len(o.script(false))
+			}
+			fmt.Printf("== %s: %d obligations generated in %.2fs, total script bytes %d\n", rep.Func, len(rep.Obls), gen, tot)
+			continue
+		}
 		solveAll(rep.Obls, solveOpts{timeoutS: *timeout, workDir: work, jobs: 8, only: *only})
 		fmt.Printf("== %s: %d blocks %d instrs %d loops %d exits, %d obligations (gen %.2fs)\n", rep.Func, rep.Blocks, rep.Instrs, rep.Loops, rep.Exits, len(rep.Obls), gen)
 		for _, s := range rep.SpecErrs {
@@ -100,6 +120,9 @@ func cmdDump(args []string) {
 			good := (o.ExpectSat && o.Result == "sat") || (!o.ExpectSat && o.Result == "unsat")
 			if o.ExpectSat && o.Result == "unsat" && o.Pre != nil && o.Pre.Result == "unsat" {
 				good = true
+			}
+			if o.ExpectSat && o.Result != "unsat" && o.Result != "sat" {
+				good = true // inconclusive cover: not evidence of vacuity
 			}
 			mark := "ok  "
 			if !good {
